@@ -40,7 +40,8 @@ func (stage *Stage) compile(global *Ast) error {
 			errs = append(errs, err)
 		}
 		if GetEnforcementLevel() > EnforceDisable {
-			for paramName := range stage.ChunkIns.Table {
+			for _, param := range stage.ChunkIns.List {
+				paramName := param.GetId()
 				if _, ok := stage.InParams.Table[paramName]; ok {
 					if GetEnforcementLevel() >= EnforceError {
 						errs = append(errs, global.err(stage,
